@@ -13,6 +13,9 @@ size_t   g_lock_ops;
 /* --- objects under study (addresses; established by the preconditions) --- */
 nni_task  *g_task;     /* the task under contract (P units) */
 nni_taskq *g_tq;       /* its queue */
+bool       g_q_empty;  /* free ghost: case split of the queue shape precondition */
+struct nni_taskq_thr *g_thr; /* worker unit: the thread record */
+size_t     g_nq;       /* worker unit: number of queued tasks */
 nni_task  *g_t0, *g_t1; /* queued tasks of the worker-thread unit, in queue order */
 
 /* --- the task callback model vp_cb ---------------------------------------- */
@@ -32,7 +35,8 @@ size_t    g_wk_task1;  /* ... on g_t1's cv */
 size_t    g_wk_sched;  /* wake-ups of the worker threads (wake or wake1 on tq_sched_cv) */
 size_t    g_wk_sched_all; /* of which: wake-all */
 size_t    g_wk_drain;  /* nni_cv_wake on tq_wait_cv (drain waiters) */
-size_t    g_cv_waits;  /* nni_cv_wait calls */
+bool      g_cv_waited; /* nni_cv_wait was called */
+bool      g_worker_unit; /* constant of the harness: the unit runs nni_taskq_thread as a thread */
 size_t    g_cv_fini;   /* nni_cv_fini calls */
 size_t    g_mtx_fini;  /* nni_mtx_fini calls */
 size_t    g_thr_init, g_thr_run, g_thr_fini;
